@@ -169,8 +169,7 @@ def run_record(scheme, acfg, p, idlen, kwmax, seed_, kind="grid"):
                 s["st"] = "search"
                 res = sch.Search(edb, tok).get_result_list()
                 exp = db[kw] if kwi else []
-                got = list(res) if not isinstance(res, (set, frozenset)) else sorted(res, key=lambda x: exp.index(x) if x in exp else -1)
-                s["pos"] = sc.result_positions(got, exp)
+                s["pos"] = sc.result_positions(sc.ordered(res, exp), exp)
                 s["out"], s["st"] = "result", ""
             except Exception as ex:
                 s["etype"] = type(ex).__name__
@@ -328,6 +327,8 @@ def main(argv_tier=None, replay_path=None):
         st["stages"][r["stage"]] = st["stages"].get(r["stage"], 0) + 1
         st["amplified"] += r["kind"] == "amplified"
         st["deletions_run"] += any(x in (DEL, DELS) or (isinstance(x, list) and x[0] == DEL) for x in r["cfg"].values())
+        if not v["ok"] and v["clause"].startswith("Harness"):
+            raise MachineryError("C08: the harness produced a record the trace specification does not accept as well-formed: %s %s" % (r["scheme"], r["cfg"]))
         if not v["ok"]:
             # canonical finding key: scheme, clause (present/absent merged), and whether a length field is 0
             zero = any(x == 0 for f, x in r["cfg"].items() if f in LENGTH_FIELDS)
